@@ -194,6 +194,9 @@ def list_setitem(ip, st, lref: LRef, idx, v):
         if isinstance(vs, LRef):
             vs = vs.seq
         step_raw = st.force(idx.step)
+        if step_raw is None and st.force(idx.start) is None and st.force(idx.stop) is None:
+            lref.seq = vs  # lst[:] = values : in-place replacement of the whole contents
+            return
         start, stop, step = Q.slice_indices(idx, n)
         k = Q.seq_len(vs)
         if step_raw is None or (isinstance(step, int) and step == 1) or (V.is_sym(step) and st.branch(V._cmp("==", step, 1))):
@@ -378,6 +381,10 @@ def call_method(ip, st, recv, name, args, kwargs):
             return tuple(Q.slice_indices(recv, n))
     if isinstance(recv, DRef):
         d = recv.d
+        if args and isinstance(args[0], SAtom) and name in ("setdefault", "pop", "__contains__"):
+            k = args[0]
+            i = st.choose([k == dv for dv in k.domain])
+            args = [k.domain[i], *args[1:]]
         if name == "get":
             return dict_get(ip, st, d, args[0], args[1] if len(args) > 1 else None)
         if name == "items":
@@ -791,6 +798,21 @@ def b_id(ip, st, x):
     raise Unsupported("id()")
 
 
+def b_setattr(ip, st, obj, name, value):
+    ip.setattr(st, obj, name, value)
+    return None
+
+
+def b_chain(ip, st, *parts):
+    r = ()
+    for p in parts:
+        v = ip.iter_view(st, st.force(p))
+        if isinstance(v, LRef):
+            v = v.seq
+        r = Q.seq_concat(r, v)
+    return r
+
+
 def b_suppress(ip, st, *classes):
     return ("suppress", tuple(classes))
 
@@ -832,6 +854,8 @@ TABLE = {
     chr: b_chr,
     id: b_id,
     contextlib.suppress: b_suppress,
+    setattr: b_setattr,
+    __import__("itertools").chain: b_chain,
     functools.wraps: b_wraps,
 }
 
